@@ -10,6 +10,16 @@ BASE = ("cd /repo && env -u TRACKLIB_VERIF_TRACE /venv/bin/python -m pytest -ra 
 
 # pid -> (module(s), technique, level text, level note, design ref)
 CHECKS = {
+    "C18": ("DTW", "TLA+ model: explicit enumeration of all monotone couplings (definition), Bellman recursion and a transcription "
+            "of the T/M tables with back-pointers, checked by TLC for all small track pairs and three norms (pinned back-pointer "
+            "encoding refuted); scores and matchings recorded from match(DTW|FDTW|FRECHET) / compare(FRECHET) judged by "
+            "DTWTrace.tla (code->spec)",
+            "TLC: Bellman = minimum over all couplings, symmetry, transcription accepted on all pairs of 1-D tracks of sizes 1..4 "
+            "over {0,1,2}, p in {1,2,inf}; the real functions are run on that family (both argument orders), on 2-D / 3-D lattice "
+            "configurations and on random pairs to 12 x 12: recorded links must form a monotone coupling linking every "
+            "observation, nb_links = number of links, cost of the links = score = optimum; FDTW and compare(FRECHET) scores = "
+            "optimum.",
+            "TLC 1.8; integer lattices, p = 1 / inf on configurations with integer distances, p = 2 via squared distances", "5/C18"),
     "C11": ("Split", "TLA+ definition of the pieces of a marker vector and of the threshold marker + transcriptions of split()'s "
             "begin/count loop and segmentation()'s comparison loop, checked by TLC on all 2^n markers and all value/threshold "
             "rows; pieces and marker columns recorded from the real functions judged by SplitTrace.tla (code->spec)",
